@@ -47,6 +47,9 @@ class Connection:
         return self._process_not_unique(previous)
     else:
       self._gfa = gfa
+      outermost = gfa._new_virtual_lines is None
+      if outermost:
+        gfa._new_virtual_lines = []
       try:
         self._initialize_references()
       except:
@@ -57,10 +60,15 @@ class Connection:
         self._remove_nonfield_backreferences()
         self._remove_nonfield_references()
         self._gfa = None
-        for line in gfa.lines:
-          if line.virtual and not line.all_references:
-            line.disconnect()
+        if outermost:
+          new_virtual_lines = gfa._new_virtual_lines
+          gfa._new_virtual_lines = None
+          for line in reversed(new_virtual_lines):
+            if line.is_connected() and not line.all_references:
+              line.disconnect()
         raise
+      if outermost:
+        gfa._new_virtual_lines = None
       self._gfa._register_line(self)
       return None
 
